@@ -163,6 +163,9 @@ func vc16GenHistory(r *vRand, proto vc14Proto, nrounds int, collide int, stats m
 				k := ks[r.Intn(len(ks))]
 				nw := res[k]
 				half := r.Intn(2)
+				if half == 0 && nw[0] < 0 {
+					half = 1 // params are changed or destroyed here, never (re)created: a creatable index is never reused
+				}
 				if r.Intn(3) == 0 {
 					nw[half] = -1
 				} else {
@@ -592,6 +595,20 @@ func vc16Restore(t *testing.T, secs []vc16Section, label string, blk *bookkeepin
 	return
 }
 
+// the accessor's reader and writer goroutines share one in-memory sqlite DB (shared cache): under heavy machine
+// load BuildMerkleTrie / the staging writers can fail with "database table is locked"; that is not an answer
+// about the file, the restore is repeated on a fresh ledger
+func vc16RestoreStable(t *testing.T, secs []vc16Section, label string, blk *bookkeeping.Block, proto vc14Proto, accountsRound basics.Round, seq *int, stats map[string]int) (o vc16Outcome) {
+	for try := 0; try < 4; try++ {
+		o = vc16Restore(t, secs, label, blk, proto, accountsRound, seq)
+		if o.stage == "" || !(strings.Contains(o.err, "locked") || strings.Contains(o.err, "busy") || strings.Contains(o.err, "context")) {
+			return
+		}
+		stats["restore_retried_db_locked"]++
+	}
+	return
+}
+
 func (o *vc16Outcome) term() []interface{} {
 	if o.stage != "" {
 		return vL(vSym("rejected"), vSym(o.stage))
@@ -1008,6 +1025,15 @@ func vc16Mutants(r *vRand, secs []vc16Section, budget int) (out []vc16Mutant) {
 	return
 }
 
+func vc16Warnings(logs string) (out string) {
+	for _, ln := range strings.Split(logs, "\n") {
+		if strings.Contains(ln, "level=warning") || strings.Contains(ln, "level=error") {
+			out += ln + "\n"
+		}
+	}
+	return
+}
+
 // ---------- the producer ----------
 type vc16File struct {
 	kind  string // "tracker" (file generated by the catchpoint tracker) / "writer" (small resource budget)
@@ -1072,7 +1098,7 @@ func TestVerifC16(t *testing.T) {
 		}
 		w.opCommit(fsRound)
 		w.observe()
-		require.Equal(t, basics.Round(fsRound), w.ml.trackers.getDbRound())
+		require.Equal(t, basics.Round(fsRound), w.ml.trackers.getDbRound(), "the first-stage commit did not happen: %s", vc16Warnings(w.lastLogs))
 		_, hasFirst := w.firsts[fsRound]
 		require.True(t, hasFirst, "first stage at %d", fsRound)
 		_, ocre := vc16Creatables(h, fsRound)
@@ -1142,7 +1168,7 @@ func TestVerifC16(t *testing.T) {
 		srcTerm := src.term()
 		t0 := h.totalsAt(fsRound)
 		emit := func(f vc16File, mname string, secs []vc16Section) {
-			o := vc16Restore(t, secs, f.label, &blk, proto, basics.Round(fsRound), &seq)
+			o := vc16RestoreStable(t, secs, f.label, &blk, proto, basics.Round(fsRound), &seq, stats)
 			stats["restore_"+mname+"_"+map[bool]string{true: "accepted", false: "rejected_" + o.stage}[o.stage == ""]]++
 			out.Case(vSym("c16"), vSym(f.kind), vSym(mname), vL(proto.lookback, proto.nx, maxRes, BalancesPerCatchpointFileChunk),
 				vL(srcTerm, vL(vSym("oracle"), oa, ok, protocol.EncodeReflect(&t0), h.roots[fsRound][:], ocre),
